@@ -211,7 +211,14 @@ def build(tier, work, builder):
     decl, defs, wrap, harn = [], [], [], []
     for g in GATES:
         decl.append(f"    void gate_{g['name']}({g['params']});")
-        defs.append(f"void TypeChecker::gate_{g['name']}({g['params']})\n{{\n    for (int verif_once = 0; verif_once < 1; verif_once++) {{\n"
+        # locals of the enclosing function that the sliced chain mentions (declared before it): arbitrary values
+        fn = X.function(src, "fn:" + g["name"], g["fn"])
+        before = src.text[fn.start:g["slice"].start]
+        locs = []
+        for lm in re.finditer(r"^\s*(bool|int|int32_t|uint32_t|size_t)\s+(\w+)\s*(?:=[^;]*)?;", before, re.M):
+            if re.search(r"\b%s\b" % re.escape(lm.group(2)), g["slice"].text) and lm.group(2) not in g["params"]:
+                locs.append("    %s %s; /* local of the enclosing function: arbitrary */\n" % (lm.group(1), lm.group(2)))
+        defs.append(f"void TypeChecker::gate_{g['name']}({g['params']})\n{{\n" + "".join(locs) + "    for (int verif_once = 0; verif_once < 1; verif_once++) {\n"
                     + g["slice"].text + "\n    }\n}\n")
         setup = "    setup_X(changes, %d);\n" % (1 if g.get("array_node") else 0)
         wrap.append(f'extern "C" void w_c11_gate_{g["name"]}(int changes, int* nerr, int* se)\n{{\n{setup}    TypeChecker tc; expression_t X(0);\n    {g["call"]}\n    *nerr = verif_err_count; *se = verif_side_effect_errors;\n}}\n')
